@@ -4,5 +4,5 @@ set -e
 cd "$(dirname "$0")"
 export CARGO_NET_OFFLINE=true
 [ -f harness/Cargo.lock ] || cp /repo/Cargo.lock harness/Cargo.lock
-python3 tools/build_all.py
-(cd harness && cargo build --release --offline --bins)
+python3 tools/build_all.py < /dev/null
+(cd harness && cargo build --release --offline --bins < /dev/null)
